@@ -11,3 +11,20 @@ pub mod serde_json {
     pub struct Opaque { pub _p: u8 }
     pub enum Value { Null, Bool(bool), Number(Number), String(String), Array(Opaque), Object(Opaque) }
 }
+// env mirror of Builder for the slice handle_init#store: the real field `option_values` with its real type
+pub struct HashMap<K, V> { pub _p: core::marker::PhantomData<(K, V)> }
+impl<V> HashMap<String, V> {
+    pub uninterp spec fn view(&self) -> Map<Seq<char>, V>;
+    #[verifier::external_body]
+    pub fn insert(&mut self, k: String, v: V) -> (r: Option<V>)
+        ensures final(self)@ == old(self)@.insert(k@, v),
+    { unimplemented!() }
+}
+pub struct Builder { pub option_values: HashMap<String, Option<options::Value>> }
+pub mod str_ax {
+    use super::*;
+    /// ASSUMED: `to_string()` of a `String` is a copy of it (vstd leaves Display of String uninterpreted)
+    pub broadcast axiom fn axiom_string_to_string(s: &String, r: String)
+        ensures #[trigger] vstd::string::to_string_from_display_ensures::<String>(s, r) ==> r@ == s@;
+}
+broadcast use crate::str_ax::axiom_string_to_string;
